@@ -329,6 +329,35 @@ class Observer:
                             kind="history-missing")
                 else:
                     self.stats.inc("message_lists_structure_of_earlier_parameter")
+        if stage == "parameters" and blamed is not None and path not in self.faulted and not scn.get("misuse"):
+            names = [n for n, a in f["params"]]
+            if blamed in names:
+                # history: parameters are checked in signature order and the first failure ends the check, so no binding can stem
+                # from a parameter AFTER the blamed one
+                def ann_names(aref):
+                    sp = scn["anns"].get(aref) if aref else None
+                    if sp is None:
+                        return set()
+                    if sp["k"] == "arr":
+                        return {t["name"] for t in model.parse_dims(sp["dims"]) if t["kind"] in ("named", "var") and t.get("name")}
+                    if sp["k"] == "tree":
+                        return ann_names(sp["leaf"]) | set((sp.get("struct") or "").replace("...", " ").split())
+                    if sp["k"] in ("union", "tuple"):
+                        return set().union(*[ann_names(i) for i in sp["items"]]) if sp["items"] else set()
+                    return set()
+
+                upto = set()
+                for n_, a_ in f["params"][: names.index(blamed) + 1]:
+                    upto |= ann_names(a_)
+                later = set()
+                for n_, a_ in f["params"][names.index(blamed) + 1:]:
+                    later |= ann_names(a_)
+                listed = {x.split("=", 1)[0] for x in got_ax + got_pt}
+                phantom = sorted((listed & later) - upto)
+                if phantom:
+                    self._v("message-bindings", dict(base, what="the message lists bindings that only a parameter AFTER the blamed one could "
+                                                                "have made (they were never in force)", blamed=blamed, phantom=phantom,
+                                                     message_lists=[got_ax, got_pt]), kind="history-phantom")
         if stage == "return" and blamed is not None:
             self._v("message-blame", dict(base, what="return-stage message blames a parameter", blamed=blamed))
         sw = bool(jaxtyping.config.jaxtyping_remove_typechecker_stack)
